@@ -13,8 +13,5 @@ git diff -- src > /tmp/seed_eval_patch.diff; git apply -R /tmp/seed_eval_patch.d
 echo "== demo without the change (must pass)"; cargo test --offline --test seed_demo 2>&1 | grep -E "test result" | head -2
 git apply /tmp/seed_eval_patch.diff
 mkdir -p $V/seeded/$ID; cp seed/patch.diff seed/meta.json $V/seeded/$ID/ 2>/dev/null; cp seed/demo.rs $V/seeded/$ID/demo.rs 2>/dev/null
-cd /repo && git apply $V/seeded/$ID/patch.diff || { echo "patch does not apply to /repo"; exit 2; }
 cd $V
-for P in "$@"; do echo "== check $P against the seeded change"; ./check $P quick | grep -E "^(FAILED|VIOLATION|UNDECIDED|OK|KNOWN|WITNESS)" | head -6; echo "rc=${PIPESTATUS[0]}"; done
-git -C /repo checkout -- .
-for P in "$@"; do ./check $P quick > /dev/null; done   # restore evidence for the unchanged tree
+for P in "$@"; do python3 tools/seed_check.py $ID $P quick | grep -v "^WARNING"; done
